@@ -123,6 +123,7 @@ func main() {
 		fs.BoolVar(&opt.verbose, "v", false, "verbose")
 		fs.StringVar(&opt.overlay, "overlay", "", "orig=replacement[;...] load orig with the content of replacement (self-test)")
 		fs.BoolVar(&opt.noReplay, "noreplay", false, "skip replay of failed obligations")
+		fs.BoolVar(&opt.sweepUpdate, "sweep-update", false, "C06: rewrite sweep_baseline.json from the safety clauses discharged now (maintenance, never run by a check)")
 		fs.Parse(os.Args[2:])
 		os.Exit(runCheck(opt))
 	case "replay":
